@@ -91,7 +91,8 @@ class Scheduler(object):
 
     def _tracer(self, frame, event, arg):
         code = frame.f_code
-        key = (os.path.basename(code.co_filename), code.co_name)
+        qual = getattr(code, "co_qualname", code.co_name)
+        key = (os.path.basename(code.co_filename), qual)
         if key in self.trace_funcs or (key[0], "*") in self.trace_funcs:
             return self._line_tracer
         return None
@@ -154,17 +155,20 @@ class Scheduler(object):
             cur = self.current
             if cur is not None and cur in en and not cur.yielding:
                 order = [cur] + [t for t in en if t is not cur]
-                preemptible = True
+                costs = [0] + [1] * (len(order) - 1)
             else:
                 # the running thread finished, blocked or yielded: switching
-                # is free; round-robin order starting after it
+                # is free; round-robin order starting after it.  Re-selecting a
+                # thread that has just yielded (a polling loop going round
+                # again while others could run) counts as a deviation.
                 if cur is not None and cur.tid in self.order:
                     k = self.order.index(cur.tid)
                     rot = self.order[k + 1:] + self.order[:k + 1]
                 else:
                     rot = list(self.order)
                 order = sorted(en, key=lambda t: rot.index(t.tid))
-                preemptible = False
+                costs = [(1 if (t is cur and len(order) > 1) else 0) for t in order]
+            preemptible = costs
             if i < len(self.prefix):
                 c = self.prefix[i]
                 if c >= len(order):
@@ -232,19 +236,17 @@ def explore(make_run, bound, max_execs=None, on_exec=None):
                 break
         # branch: at every decision after the prefix, try the alternatives
         cost = 0
-        costs = []
-        for (n, preemptible, tid, label), c in zip(sched.decisions, sched.choices):
-            costs.append(cost)
-            if preemptible and c != 0:
-                cost += 1
+        before = []
+        for (n, altcosts, tid, label), c in zip(sched.decisions, sched.choices):
+            before.append(cost)
+            cost += altcosts[c]
         for i in range(len(sched.decisions) - 1, len(prefix) - 1, -1):
-            n, preemptible, tid, label = sched.decisions[i]
-            base = costs[i]
+            n, altcosts, tid, label = sched.decisions[i]
+            base = before[i]
             for alt in range(1, n):
                 if alt == sched.choices[i]:
                     continue
-                c2 = base + (1 if preemptible else 0)
-                if c2 > bound:
+                if base + altcosts[alt] > bound:
                     continue
                 stack.append(sched.choices[:i] + [alt])
     return stats
